@@ -47,7 +47,7 @@ funs = [
  ("write_error", "s e", "fst (write_error c s e)", ["sc_out","sc_closing","sc_closeRef"]),
  ("mark_closed", "id w", "mark_closed c id w", ["sc_ring","sc_oldest"]),
  ("release_stream", "s", "release_stream c s", ["sc_open","sc_out"]),
- ("close_stream", "s", "close_stream c s", ["sc_ring","sc_oldest","sc_strms","sc_gone","sc_open","sc_out"]),
+ ("close_stream", "s", "close_stream c s", ["sc_ring","sc_oldest","sc_strms","sc_gone","sc_open","sc_out","sc_discardID","sc_discardPrev","sc_discardFields"]),
  ("put", "x", "put c x", ["sc_strms"]),
  ("credit_conn_window", "cfg n", "credit_conn_window cfg c n", ["sc_currentWindow","sc_out"]),
  ("consume_recv_window", "cfg s fr n", "consume_recv_window cfg c s fr n", ["sc_currentWindow","sc_out"]),
